@@ -212,20 +212,34 @@ def gen_system(rng, size_cap):
     # topologies are outside what shrake_rupley - and most of mdtraj - supports, so they are not generated.)
     nres = rng.randint(1, max(1, min(n, 1 + n // 3)))
     resid = sorted(list(range(nres)) + [rng.randrange(nres) for _ in range(n - nres)])
-    interleaved = n >= 3 and nres >= 2 and rng.random() < 0.07
+    single = n >= 2 and rng.random() < 0.06
+    if single:
+        # one-atom residues (ions, coarse-grained beads) stored in an order different from the residue order: in residue
+        # mode n_groups == n_atoms although the atom -> group mapping is a non-identity permutation; sometimes mixed
+        # with one multi-atom residue
+        if n >= 4 and rng.random() < 0.35:
+            nres = n - 1
+            resid = list(range(nres)) + [rng.randrange(nres)]
+        else:
+            nres = n
+            resid = list(range(n))
+        while resid == sorted(resid):
+            rng.shuffle(resid)
+    interleaved = (not single) and n >= 3 and nres >= 2 and rng.random() < 0.07
     if interleaved:
         # residues NOT contiguous in index order: Topology.atoms (chain -> residue -> atom) then walks the atoms in an
         # order different from atom.index.  One frame only, so that the frame-carry variant does not interfere.
         rng.shuffle(resid)
         if resid == sorted(resid):
             resid[0], resid[-1] = resid[-1], resid[0]
-    nfr = 1 if interleaved else rng.choice([1, 1, 2, 3, 5])
+    nfr = 1 if interleaved else rng.choice([1, 2, 3]) if single else rng.choice([1, 1, 2, 3, 5])
     frames = []
     for f in range(nfr):
         amp = 0.0 if f == 0 else rng.choice([0.002, 0.02, 0.06])
         fr = [[_grid(p[k] + rng.uniform(-amp, amp)) for k in range(3)] for p in pos]
         frames.append(fr)
-    return {"kind": kind + ("-interleaved" if interleaved and resid != sorted(resid) else ""), "elems": elems, "resid": resid,
+    return {"kind": kind + ("-one-atom-residues" if single else "-interleaved" if interleaved and resid != sorted(resid) else ""),
+            "elems": elems, "resid": resid,
             "nres": nres, "xyz": frames, "grid": GRID}
 
 
@@ -248,7 +262,7 @@ def gen_calls(ctx):
     SYMBOLS.update(ctx.run_impl("sasa_impl.py", {"cases": []})["symbols"])
     quick = ctx.tier == "quick"
     nsys = 300 if quick else 4000
-    budget = 200.0 if quick else 3000.0          # estimated seconds of vm_compute (spread over 4 processes)
+    budget = 170.0 if quick else 3000.0          # estimated seconds of vm_compute (spread over 4 processes)
     pts = sphere_points(ctx)
     groups = []
     skipped = 0
@@ -278,7 +292,7 @@ def gen_calls(ctx):
         g = dict(sysd)
         g.update(probe=probe, nsp=nsp, change=change, sel=sel)
         cost = est_cost(g, analyse(g, pts[nsp][0]))
-        if cost > budget:
+        if cost > budget or (quick and cost > 12.0):
             skipped += 1
             if budget < 2.0:
                 break
@@ -307,6 +321,12 @@ def gen_calls(ctx):
                        "probe": 0.14, "nsp": 7, "change": None, "sel": None})
     groups.append({"kind": "pair-interleaved", "elems": ["C", "H", "O"], "resid": [1, 0, 1], "nres": 2, "grid": GRID,
                    "xyz": [[[0, 0, 0], [_grid(0.21), 0, 0], [_grid(3.0), 0, 0]]], "probe": 0.14, "nsp": 96, "change": None, "sel": None})
+    ions = [[[0, 0, 0], [_grid(0.25), 0, 0], [_grid(0.1), _grid(0.3), 0], [_grid(2.5), 0, 0]],
+            [[0, 0, 0], [_grid(0.28), 0, 0], [_grid(0.1), _grid(0.33), 0], [_grid(2.5), 0, 0]]]
+    groups.append({"kind": "one-atom-residues", "elems": ["Na", "Cl", "O", "K"], "resid": [2, 0, 3, 1], "nres": 4, "grid": GRID,
+                   "xyz": ions, "probe": 0.14, "nsp": 60, "change": None, "sel": None})
+    groups.append({"kind": "one-atom-residues", "elems": ["Na", "Cl", "O", "K"], "resid": [2, 0, 3, 1], "nres": 4, "grid": GRID,
+                   "xyz": ions[:1], "probe": 0.14, "nsp": 60, "change": None, "sel": [0, 3]})
     groups.append({"kind": "empty-selection", "elems": ["C", "H", "O", "N"], "resid": [0, 0, 1, 1], "nres": 2, "grid": GRID,
                    "xyz": far, "probe": 0.0, "nsp": 7, "change": None, "sel": []})
     return groups
